@@ -353,6 +353,37 @@ impl SysC {
         SysC { core, alphabet, dev_accepted: HashSet::new(), last_outcome: String::new() }
     }
 
+    /// Part (e): Class C size limits after the RX2 data rate was renegotiated. Alphabet: uplinks whose Class A
+    /// downlink carries RXParamSetupReq with another RX2 data rate (in RX1 or in RX2), idle listening and Class C
+    /// receptions during the waits of an uplink with frames at and one byte above the limit of every data rate
+    /// that was or is in force. The reference's limit is the one of the configuration the radio was last armed with.
+    pub fn new_rx2(cfg: &DevCfg) -> SysC {
+        let core = ACore::new(cfg, true);
+        let plain = CEv::Send { rxc1: vec![], rxc2: vec![], rx1: None, rx2: None };
+        let mut alphabet = vec![plain];
+        let (freq, drs, lens): (u32, &[u8], &[usize]) = match cfg.region.as_str() {
+            // RX2 869.525 MHz; DR0 M = 59, DR3 M = 123, DR5 M = 250 (MACPayload = 8 + len)
+            "EU868" => (8_695_250, &[0, 3, 5], &[51, 52, 115, 116, 242]),
+            // RX2 866.55 MHz, default DR2; same limits
+            _ => (8_665_500, &[0, 2, 3, 5], &[51, 52, 115, 116, 242]),
+        };
+        let fb = freq.to_le_bytes();
+        for &dr in drs {
+            let cmd = Frame::Down { fcnt: Fcnt::Rel(1), confirmed: false, ack: false, fopts: vec![0x05, dr & 0x0F, fb[0], fb[1], fb[2]], port: None, payload: vec![], tamper: Tamper::None };
+            alphabet.push(CEv::Send { rxc1: vec![], rxc2: vec![], rx1: Some(cmd.clone()), rx2: None });
+            alphabet.push(CEv::Send { rxc1: vec![], rxc2: vec![], rx1: None, rx2: Some(cmd) });
+        }
+        for &len in lens {
+            let f = Frame::Down { fcnt: Fcnt::Rel(1), confirmed: false, ack: false, fopts: vec![], port: Some(1), payload: payload(len), tamper: Tamper::None };
+            alphabet.push(CEv::Listen(vec![f.clone()]));
+            if len == 52 || len == 116 {
+                alphabet.push(CEv::Send { rxc1: vec![f.clone()], rxc2: vec![], rx1: None, rx2: None });
+                alphabet.push(CEv::Send { rxc1: vec![], rxc2: vec![f], rx1: None, rx2: None });
+            }
+        }
+        SysC { core, alphabet, dev_accepted: HashSet::new(), last_outcome: String::new() }
+    }
+
     fn check(&mut self, st: &AStep, single_listen: bool) -> Vec<V> {
         let mut out = vec![];
         if let AResp::Panic(p) = &st.resp {
@@ -601,6 +632,11 @@ pub fn run(tier: Tier, replay: Option<&str>) {
             }
             replay_exit("C05", path, explore::replay(&|| Sys::new_table(&cfg), &hist));
         }
+        if let Some(cc) = c["cfg"].get("class_c_rx2_cfg") {
+            let cfg: DevCfg = serde_json::from_value(cc.clone()).expect("cfg");
+            let hist: Vec<CEv> = serde_json::from_value(c["history"].clone()).expect("history");
+            replay_exit("C05", path, explore::replay(&|| SysC::new_rx2(&cfg), &hist));
+        }
         if let Some(cc) = c["cfg"].get("class_c_cfg") {
             let cfg: DevCfg = serde_json::from_value(cc.clone()).expect("cfg");
             let hist: Vec<CEv> = serde_json::from_value(c["history"].clone()).expect("history");
@@ -640,6 +676,21 @@ pub fn run(tier: Tier, replay: Option<&str>) {
         capped |= st.capped;
         for (k, v) in st.outcomes {
             *outcomes.entry(format!("classc:{k}")).or_insert(0) += v;
+        }
+    }
+    // part (e): Class C size limits after the RX2 data rate was renegotiated
+    for region in ["EU868", "IN865"] {
+        for dr in [0u8, 5] {
+            let mut cfg = DevCfg::abp(region);
+            cfg.dr = Some(dr);
+            let cj = json!({"class_c_rx2_cfg": serde_json::to_value(&cfg).unwrap()});
+            let st = explore::bfs(&ctx, &cj, &|| SysC::new_rx2(&cfg), if th { 4 } else { 3 }, 3_000_000);
+            states += st.states;
+            transitions += st.transitions;
+            capped |= st.capped;
+            for (k, v) in st.outcomes {
+                *outcomes.entry(format!("classc-rx2:{k}")).or_insert(0) += v;
+            }
         }
     }
     // part (d): size limits of every region's data rates against the regional parameter tables
@@ -711,7 +762,7 @@ pub fn run(tier: Tier, replay: Option<&str>) {
         ],
         "evaluations": ctx.evals(),
         "distinct_nontrivial": states,
-        "rule": "part (a): real next_fcnt_down (hook wrapper) for all 65536 wire values x every `last` in None + [b-W,b+W] around b in {0,0x10000,0x7FFFFFFF,0x80000000,0xFFFF0000,2^32-1} + a stride over the whole range, compared with the u64 specification rule; part (b): BFS over histories of whole uplink transactions on the real nb device, each delivering one frame of the alphabet (fresh +1/+2/+16384/+16385/+65536, same counter, older, replays of the last two accepted frames, forged MIC, other session, MIC under N+-65536, uplink-typed, port 0, at-limit and over-limit sizes) in RX1 or RX2, from sessions whose downlink counter starts at epoch boundaries (and whose uplink counter is far from / one step from / at exhaustion); part (c): the same on the async device in Class C (idle rxc_listen with one or two receptions, receptions while waiting for RX1 / RX2, followed by a Class A downlink); part (d): every region x every uplink data rate: frames whose MACPayload is exactly the regional limit of the RX1 / RX2 data rate (with and without FOpts) and one byte above it, histories of two transactions, also on boards with 1000 / 2500 ms receive windows; with every other RX1 data-rate offset the region admits (negotiated first), frames at and one byte above every size limit of the region in RX1 and RX2, the limit taken from the window's own spreading factor and bandwidth; states = distinct (device snapshot minus uplink/ADR counters, reference counter, last two accepted frames)",
+        "rule": "part (a): real next_fcnt_down (hook wrapper) for all 65536 wire values x every `last` in None + [b-W,b+W] around b in {0,0x10000,0x7FFFFFFF,0x80000000,0xFFFF0000,2^32-1} + a stride over the whole range, compared with the u64 specification rule; part (b): BFS over histories of whole uplink transactions on the real nb device, each delivering one frame of the alphabet (fresh +1/+2/+16384/+16385/+65536, same counter, older, replays of the last two accepted frames, forged MIC, other session, MIC under N+-65536, uplink-typed, port 0, at-limit and over-limit sizes) in RX1 or RX2, from sessions whose downlink counter starts at epoch boundaries (and whose uplink counter is far from / one step from / at exhaustion); part (c): the same on the async device in Class C (idle rxc_listen with one or two receptions, receptions while waiting for RX1 / RX2, followed by a Class A downlink); part (e): Class C after a renegotiated RX2 data rate (EU868, IN865): uplinks whose Class A downlink carries RXParamSetupReq with RX2 DR0/(2)/3/5 in RX1 or RX2, then idle listening / receptions during the waits of an uplink with frames at and one byte above the limit of each of those rates, depth 3 (thorough 4); part (d): every region x every uplink data rate: frames whose MACPayload is exactly the regional limit of the RX1 / RX2 data rate (with and without FOpts) and one byte above it, histories of two transactions, also on boards with 1000 / 2500 ms receive windows; with every other RX1 data-rate offset the region admits (negotiated first), frames at and one byte above every size limit of the region in RX1 and RX2, the limit taken from the window's own spreading factor and bandwidth; states = distinct (device snapshot minus uplink/ADR counters, reference counter, last two accepted frames)",
         "arith_last_values": n_last,
         "arith_pairs": n_last * 65536,
         "arith_accepting_pairs": arith_accepts,
@@ -732,6 +783,11 @@ pub fn run(tier: Tier, replay: Option<&str>) {
                 Ok(g) if g == spec_next_fcnt(last, wire) => vec![],
                 _ => ctx_sigs_for_arith(last, wire),
             };
+        }
+        if let Some(cc) = cj["cfg"].get("class_c_rx2_cfg") {
+            let cfg: DevCfg = serde_json::from_value(cc.clone()).unwrap();
+            let hist: Vec<CEv> = serde_json::from_value(cj["history"].clone()).unwrap();
+            return explore::replay(&|| SysC::new_rx2(&cfg), &hist);
         }
         if let Some(cc) = cj["cfg"].get("class_c_cfg") {
             let cfg: DevCfg = serde_json::from_value(cc.clone()).unwrap();
